@@ -573,7 +573,8 @@ def g_sv_mix_from(sizes):
 
 
 # ---- SparseArray
-SA_KINDS = ['scalar', 'row_list', 'row_array', 'sv', 'sv1', 'sa_same', 'sa_1row', 'array2d', 'array2d_col1', 'sv_bad', 'sa_badrows']
+SA_KINDS = ['scalar', 'row_list', 'row_array', 'sv', 'sv1', 'sa_same', 'sa_1row', 'array2d', 'array2d_col1', 'sv_bad', 'sa_badrows',
+            'array2d_badrows']
 
 
 def _mk_sa_operand(E, kind, m, n, nonzero):
@@ -614,6 +615,9 @@ def _mk_sa_operand(E, kind, m, n, nonzero):
     if kind == 'sa_badrows':
         o, v = _full_sa(E, m + 1, n) if nonzero else mk_sa(E, 'b', m + 1, n)
         return o, v, m != 1
+    if kind == 'array2d_badrows':
+        v = [mk_vals(E, f'b{r}_', n, nonzero) for r in range(m + 1)]
+        return C.array(E, v), v, m != 1
     raise KeyError(kind)
 
 
@@ -626,7 +630,7 @@ def g_sa_binop(shapes, kinds, ops, inplace):
         b, db, bad = _mk_sa_operand(E, kind, m, n, nonzero=(op == 'truediv'))
         sa_, sb_ = snapshot(a), snapshot(b)
         sig = ('i' if inplace else '') + f'{op}/{kind}'
-        if inplace and kind == 'sa_badrows':
+        if inplace and kind in ('sa_badrows', 'array2d_badrows'):
             bad = True          # output cannot be broadcast
         try:
             r = iapply(op, a, b) if inplace else apply(op, a, b)
